@@ -487,6 +487,38 @@ fn struct_names(m: &Module) -> Vec<String> {
     m.types.iter().filter(|t| matches!(&t.def, crate::tygen::Def::Struct { fields, .. } if !fields.is_empty())).map(|t| t.name.clone()).collect()
 }
 
+
+/// The comparison of this file for a hand-written bridge: every named function's native declaration in `backend`
+/// (dart / kotlin) against the C prototype, position by position.  `Ok(list of (function, position, c, binding))`.
+pub fn compare_functions(src: &str, backend: &str, abis: &[String]) -> Result<Vec<(String, String, String, String)>, String> {
+    let c_out = tool::run_backend(src, "c");
+    let b_out = tool::run_backend(src, backend);
+    if !c_out.ok() { return Err(format!("c: {}", c_out.status())); }
+    if !b_out.ok() { return Err(format!("{backend}: {}", b_out.status())); }
+    let dir = util::workdir("C07cmp");
+    let c_text = preprocess_c(&dir, &c_out.files)?;
+    let c = parse_c(&c_text);
+    let (dart, kt) = if backend == "dart" { (Some(parse_dart(&b_out.files)), None) } else { (None, Some(parse_kotlin(&b_out.files))) };
+    let mut out = vec![];
+    for abi in abis {
+        let Some((cr, cps)) = c.proto(abi) else { out.push((abi.clone(), "prototype".into(), "missing".into(), "".into())); continue };
+        let nat = if let Some(d) = &dart {
+            d.natives.get(abi.as_str()).map(|(r, ps)| (d.ty(r, 0), ps.iter().map(|p| d.ty(p, 0)).collect::<Vec<_>>()))
+        } else {
+            let k = kt.as_ref().unwrap();
+            k.funs.get(abi.as_str()).map(|(r, ps)| (k.ty(r, 0), ps.iter().map(|p| k.ty(p, 0)).collect::<Vec<_>>()))
+        };
+        let Some((br, bps)) = nat else { out.push((abi.clone(), "native declaration".into(), "".into(), "missing".into())); continue };
+        if cps.len() != bps.len() { out.push((abi.clone(), "parameter count".into(), cps.len().to_string(), bps.len().to_string())); continue; }
+        for (k, (cp, bp)) in cps.iter().zip(&bps).enumerate() {
+            if !cp.clone().drop_empty_unions().same(&bp.clone().drop_empty_unions()) { out.push((abi.clone(), format!("param {k}"), cp.show(), bp.show())); }
+        }
+        if !cr.clone().drop_empty_unions().same(&br.clone().drop_empty_unions()) { out.push((abi.clone(), "return".into(), cr.show(), br.show())); }
+    }
+    let _ = std::fs::remove_dir_all(&dir);
+    Ok(out)
+}
+
 pub fn main(args: &[String]) {
     let a = util::parse_args(args);
     let mut rep = Report::new("C07");
